@@ -36,7 +36,7 @@ type c05Rec struct {
 }
 
 type c05Op struct {
-	Op   string   `json:"op"` // publish flush pause unpause
+	Op   string   `json:"op"` // publish flush pause unpause restart
 	Recs []c05Rec `json:"recs,omitempty"`
 }
 
@@ -176,9 +176,25 @@ func c05Gen(t *rapid.T) c05Case {
 	// records of other lengths (edge-multi short records, or lengths reconfigured elsewhere) may reach any publisher:
 	// LJH3 and OFF store them, LJH 2.2 cannot represent them and must leave them out
 	variable := (!c.LJH22 && !c.OFF) || rapid.IntRange(0, 3).Draw(t, "oddlengths") == 0
+	if rapid.IntRange(0, 7).Draw(t, "tworuns") == 0 {
+		// two runs of the same shape on one publisher: as many records before the flush in the second run as in the first
+		n := rapid.IntRange(1, 3).Draw(t, "runrecs")
+		mk := func() c05Op {
+			op := c05Op{Op: "publish"}
+			for k := 0; k < n; k++ {
+				op.Recs = append(op.Recs, c05GenRec(t, c.P, false, c.P.SubDiv))
+			}
+			return op
+		}
+		fl := rapid.SampledFrom([]string{"flush", "pause"}).Draw(t, "runflush")
+		c.Ops = append(c.Ops, mk(), c05Op{Op: fl}, c05Op{Op: "restart"}, mk(), c05Op{Op: fl}, c05Op{Op: "flush"})
+		return c
+	}
 	nops := rapid.IntRange(1, 12).Draw(t, "nops")
 	for i := 0; i < nops; i++ {
-		switch rapid.IntRange(0, 9).Draw(t, "opclass") {
+		switch rapid.IntRange(0, 10).Draw(t, "opclass") {
+		case 10:
+			c.Ops = append(c.Ops, c05Op{Op: "restart"})
 		case 0:
 			c.Ops = append(c.Ops, c05Op{Op: "pause"})
 		case 1, 2:
@@ -448,8 +464,9 @@ func c05Run(c c05Case) (v vVerdict) {
 	}
 	base := filepath.Join(dir, fmt.Sprintf("c05_%d_%d", os.Getpid(), c05Counter))
 	names := map[string]string{"ljh": base + ".ljh", "ljh3": base + ".ljh3", "off": base + ".off"}
+	allNames := []string{names["ljh"], names["ljh3"], names["off"]}
 	defer func() {
-		for _, n := range names {
+		for _, n := range allNames {
 			os.Remove(n)
 		}
 	}()
@@ -459,20 +476,30 @@ func c05Run(c c05Case) (v vVerdict) {
 	}
 	offset := time.Unix(0, p.OffsetNs)
 	pixel := Pixel{X: p.PixX, Y: p.PixY, Name: p.PixName}
-	if c.LJH22 {
-		dp.SetLJH22(p.ChanIndex, p.Npre, p.Nsamp, p.FPS, p.Timebase, offset, p.Rows, p.Cols, p.Chans, p.SubDiv, p.Row, p.Col, p.SubOff,
-			names["ljh"], p.Source, p.ChanName, p.ChanNumber, pixel)
+	run := 0
+	install := func() { // what a START does for this channel
+		if run > 0 {
+			names = map[string]string{"ljh": fmt.Sprintf("%s_r%d.ljh", base, run), "ljh3": fmt.Sprintf("%s_r%d.ljh3", base, run), "off": fmt.Sprintf("%s_r%d.off", base, run)}
+			allNames = append(allNames, names["ljh"], names["ljh3"], names["off"])
+		}
+		if c.LJH22 {
+			dp.SetLJH22(p.ChanIndex, p.Npre, p.Nsamp, p.FPS, p.Timebase, offset, p.Rows, p.Cols, p.Chans, p.SubDiv, p.Row, p.Col, p.SubOff,
+				names["ljh"], p.Source, p.ChanName, p.ChanNumber, pixel)
+		}
+		if c.OFF {
+			P := mat.NewDense(p.NBases, p.Nsamp, append([]float64(nil), p.Proj...))
+			B := mat.NewDense(p.Nsamp, p.NBases, append([]float64(nil), p.Basis...))
+			dp.SetOFF(p.ChanIndex, p.Npre, p.Nsamp, p.FPS, p.Timebase, offset, p.Rows, p.Cols, p.Chans, p.SubDiv, p.Row, p.Col, p.SubOff,
+				names["off"], p.Source, p.ChanName, p.ChanNumber, P, B, p.Description, pixel)
+		}
+		if c.LJH3 {
+			dp.SetLJH3(p.ChanIndex, p.Timebase, p.Rows, p.Cols, p.SubDiv, p.SubOff, names["ljh3"])
+		}
+		run++
 	}
-	if c.OFF {
-		P := mat.NewDense(p.NBases, p.Nsamp, append([]float64(nil), p.Proj...))
-		B := mat.NewDense(p.Nsamp, p.NBases, append([]float64(nil), p.Basis...))
-		dp.SetOFF(p.ChanIndex, p.Npre, p.Nsamp, p.FPS, p.Timebase, offset, p.Rows, p.Cols, p.Chans, p.SubDiv, p.Row, p.Col, p.SubOff,
-			names["off"], p.Source, p.ChanName, p.ChanNumber, P, B, p.Description, pixel)
-	}
-	if c.LJH3 {
-		dp.SetLJH3(p.ChanIndex, p.Timebase, p.Rows, p.Cols, p.SubDiv, p.SubOff, names["ljh3"])
-	}
+	install()
 	var accepted []c05Rec
+	restarts := 0
 	paused := false
 	interleaved := false
 	check := func(when string) *vVerdict {
@@ -521,6 +548,18 @@ func c05Run(c c05Case) (v vVerdict) {
 			if len(accepted) > 0 {
 				interleaved = true
 			}
+		case "restart":
+			// STOP, then START again on the same publisher: the first files are complete, the next ones begin empty
+			dp.RemoveLJH22()
+			dp.RemoveOFF()
+			dp.RemoveLJH3()
+			if f := check(fmt.Sprintf("after the stop of run %d (op %d)", run, i)); f != nil {
+				return *f
+			}
+			accepted = nil
+			install()
+			paused = false
+			restarts++
 		case "unpause":
 			dp.SetPause(false)
 			paused = false
@@ -564,6 +603,9 @@ func c05Run(c c05Case) (v vVerdict) {
 	}
 	if len(accepted) == 0 {
 		v.Classes = append(v.Classes, "no-record-accepted")
+	}
+	if restarts > 0 {
+		v.Classes = append(v.Classes, "second-run-on-the-same-publisher")
 	}
 	return v
 }
